@@ -324,6 +324,8 @@ def _replace_subscript_looping_complex_cases(source: str) -> str:
             continue
 
         new_index_name = f"{template_match.target.id}_{template_match.index.id}"
+        if any(core.walk(root, (ast.Name(id=new_index_name), ast.arg(arg=new_index_name)))):
+            continue  # The new loop variable would shadow an existing variable
 
         yield comprehension.target, ast.Name(id=new_index_name)
         if core.match_template(comprehension.iter.args[0], target_length_template):
